@@ -44,6 +44,19 @@ Proof.
 Qed.
 Print Assumptions C10_setmap_filter.
 
+(* End to end against the reference preprocessor: for structured files and commands it
+   accepts, the analysis succeeds, the platform set under which a node's lines are
+   counted is exactly {n | some command of n, preprocessed alone, reaches the node}
+   (it does not mention the patterns), and each row counts member files only. *)
+Theorem C10_keys_are_spec :
+  forall (fs : fsys) (fuel : nat) (root : path) (xs ts : list pat) (w : nodeid -> nat) (cfg : config),
+    fs_wf fs -> accepted_S fs fuel cfg ->
+    exists am sm, analyse fs fuel root xs ts w cfg = Ok (am, sm) /\
+      (forall n x, In n (plats_of (names_of cfg) am x) <-> uses_S fs fuel cfg n x) /\
+      (forall k, get k sm = count (names_of cfg) w am (member_of root (effective xs ts)) k fs).
+Proof. exact keys_are_spec. Qed.
+Print Assumptions C10_keys_are_spec.
+
 (* with well-nested files the analysis with more patterns always succeeds when the one with fewer does *)
 Theorem C10_exclusion_total :
   forall (fs : fsys) (fuel : nat) (root : path) (xs ts more : list pat) (w : nodeid -> nat) (cfg : config) (am : amap) (sm : setmap),
